@@ -673,6 +673,8 @@ def check_luma_scalar_casts(F, rep):
             want, wf = ["as_mut" if mut else "as_ref"], []
         elif is_luma(s0):
             want, wf = ["new"], []                                      # Luma::new(luma)
+            if not calls and other == ["<struct>"]:
+                calls, other = ["new"], []                              # ... or the struct literal Luma { luma, standard: PhantomData }
         else:
             want, wf = [], ["luma"]                                     # color.luma
         ok = calls == want and fields == wf and not other
